@@ -164,7 +164,8 @@ Qed.
 
 #[export] Hint Resolve fr_refl frame_push_patch frame_push_list frame_push_patches frame_push_tree
   frame_push_tree_list frame_reorder frame_commit frame_uncommit frame_hide frame_unhide frame_rename
-  frame_new_applied frame_update_patch frame_repair_appliedness frame_reset frame_reset_partially : frames.
+  frame_new_applied frame_update_patch frame_repair_appliedness frame_reset frame_reset_partially
+  frame_refresh_absorb : frames.
 
 Ltac frame_auto :=
   cbv beta;
@@ -267,27 +268,20 @@ Proof.
   - destruct h; cbn [fst]; [|assumption]. eapply mirror_dep; [| | |eassumption]; reflexivity.
 Qed.
 
-Lemma run_refresh_mirror : forall w, mirror w -> mirror (fst (run_refresh w)).
+Lemma run_refresh_mirror : forall w p, mirror w -> mirror (fst (run_refresh w p)).
 Proof.
-  intros w H. unfold run_refresh, put.
+  intros w p H. unfold run_refresh, put.
+  destruct (match p with Some o => _ | None => _ end) as [loc_l|]; [|exact H].
   destruct (open_stack PAllow w) as [op|] eqn:Eo; [apply open_op_mir in Eo|exact H].
   destruct (negb (head_top_ok op)); [mir|].
-  destruct (last_error (s_applied (op_state op))) as [pn|]; [|mir].
+  match goal with |- mirror (fst (rres_bind _ ?r _)) => destruct r as [pn| |]; cbn [rres_bind]; [|mir|mir] end.
   destruct (w_unmerged (op_world op)); [mir|].
   match goal with |- context [transact ?o ?a ?f ?m] =>
     assert (Hm : mirror (fst (transact o a f m))) by mir;
     destruct (transact o a f m) as [w2 x] end.
   cbn [fst] in Hm. destruct x; try exact Hm.
   destruct (open_stack PAllow w2) as [op2|] eqn:Eo2; [apply open_op_mir in Eo2|exact Hm].
-  apply transact_mirror; [exact Eo2|]. cbv beta.
-  set (t := begin_txn op2 _). clearbody t.
-  destruct (t_patch t pn) as [pc|]; [|exact I].
-  destruct (t_patch t _) as [tc|]; [|exact I].
-  match goal with |- frame _ (match delete_patches ?f (fst ?t1) with _ => _ end) =>
-    assert (H1 : fr t (fst t1)); [|generalize dependent t1; intros t1' H1] end.
-  { destruct (tree_eqb _ _); cbn [fst]; [apply fr_refl|]. split; [reflexivity|].
-    rewrite t_objs_set_objs. apply store_extends_put. }
-  eapply frame_fr; [exact H1|]. frame_auto.
+  apply transact_mirror; [exact Eo2|]. apply frame_refresh_absorb.
 Qed.
 
 Lemma run_repair_mirror : forall lower_s w, mirror w -> mirror (fst (run_repair lower_s w)).
